@@ -1,0 +1,13 @@
+//go:build verif
+// +build verif
+
+package p2p
+
+import "context"
+
+// Verification hooks for the pipeline-termination property (build tag verif): thin exports.
+
+// VerifPipesMerge is merge (fan-in behind SubscribeMsg).
+func VerifPipesMerge(ctx context.Context, cs ...chan P2PMessage) chan P2PMessage {
+	return merge(ctx, cs...)
+}
